@@ -29,7 +29,8 @@ def poly_of(rng, dtype, shape=None, names=None):
     size = int(numpy.prod(shape, dtype=int))
     rows = gen.rand_rows(rng, len(names), rng.randint(1, 3), 2)
     pool = VALUES[kind_of(dtype)]
-    coefs = [[rng.choice(pool) for _ in range(size)] for _ in rows]
+    # all-zero terms (stored as given: build_poly does not clean) occur in every dtype
+    coefs = [[pool[0]] * size if rng.random() < 0.12 else [rng.choice(pool) for _ in range(size)] for _ in rows]
     return build_poly({"shape": list(shape), "names": list(names), "rows": [list(r) for r in rows],
                        "coefs": coefs, "dtype": dtype})
 
